@@ -11,13 +11,14 @@ package main
 import (
 	"fmt"
 	"os"
+	"runtime/debug"
 	"sort"
 	"strconv"
 	"strings"
+	"sync"
 
 	"github.com/XiaoMi/Gaea/models"
 	"github.com/XiaoMi/Gaea/parser/ast"
-	"github.com/XiaoMi/Gaea/verifshim/vrand"
 
 	"verif/checks/c03/rig"
 	"verif/engine/enum"
@@ -127,7 +128,11 @@ func (l Layout) valid() bool {
 	return true
 }
 
-func build(l Layout) (*rig.Env, error) {
+func build(l Layout) (*rig.Env, error) { return buildWith(l, false) }
+
+// buildWith: withT adds a range-sharded table t (key id, 100 rows per table, two tables
+// on every namespace slice) for the statements of the history family.
+func buildWith(l Layout, withT bool) (*rig.Env, error) {
 	cfg, _ := l.databases()
 	var slices []string
 	for _, s := range l.RuleSlices {
@@ -137,7 +142,16 @@ func build(l Layout) (*rig.Env, error) {
 		return &models.Shard{DB: rig.DB, Table: table, Type: models.ShardGlobal, Slices: slices,
 			Locations: append([]int(nil), l.Locations...), Databases: append([]string(nil), cfg...)}
 	}
-	return rig.NewEnv(rig.Namespace(l.NSlices, []*models.Shard{mk("g1"), mk("g2")}, nil))
+	rules := []*models.Shard{mk("g1"), mk("g2")}
+	if withT {
+		t := &models.Shard{DB: rig.DB, Table: "t", Type: models.ShardRange, Key: "id", TableRowLimit: 100}
+		for i := 0; i < l.NSlices; i++ {
+			t.Slices = append(t.Slices, rig.SliceName(i))
+			t.Locations = append(t.Locations, 2)
+		}
+		rules = append(rules, t)
+	}
+	return rig.NewEnv(rig.Namespace(l.NSlices, rules, nil))
 }
 
 func layouts(maxSlices, maxLoc int, orders bool) []Layout {
@@ -257,6 +271,9 @@ func statements() []Stmt {
 type Case struct {
 	Layout Layout `json:"layout"`
 	Stmt   Stmt   `json:"stmt"`
+	// History: statements planned before Stmt on the SAME router (history family; the
+	// namespace then also has the range-sharded table t)
+	History []string `json:"history,omitempty"`
 }
 
 // ------------------------------------------------------------------ oracle
@@ -280,12 +297,55 @@ func (c *clearer) Leave(n ast.Node) (ast.Node, bool) { return n, true }
 // shape prints a statement without schema names (and, for single-table statements whose
 // column qualifiers the planner may drop, without table qualifiers on columns).
 func shape(env *rig.Env, sql string, dropTables bool) (string, error) {
+	type res struct {
+		s   string
+		err error
+	}
+	k := fmt.Sprint(dropTables) + sql
+	if v, ok := shapeCache.Load(k); ok {
+		return v.(res).s, v.(res).err
+	}
 	stmt, err := env.Parse(sql)
 	if err != nil {
+		shapeCache.Store(k, res{"", err})
 		return "", err
 	}
 	stmt.Accept(&clearer{tables: dropTables})
-	return strings.ToLower(rig.Restore(stmt)), nil
+	out := strings.ToLower(rig.Restore(stmt))
+	shapeCache.Store(k, res{out, nil})
+	return out, nil
+}
+
+// The same generated text recurs across layouts and random answers: what parsing it back
+// yields (a pure function of the text, computed by Gaea's parser) is memoised.
+var shapeCache, namesCache sync.Map
+
+// qualName is a schema-qualified table or column name found in a generated statement.
+type qualName struct{ Schema, Table, Name string }
+
+type sqlNames struct {
+	err     error
+	tables  []qualName
+	columns []qualName
+}
+
+func namesOf(env *rig.Env, sql string) sqlNames {
+	if v, ok := namesCache.Load(sql); ok {
+		return v.(sqlNames)
+	}
+	var r sqlNames
+	_, names, err := env.ParseNames(sql)
+	r.err = err
+	if err == nil {
+		for _, t := range names.Tables {
+			r.tables = append(r.tables, qualName{t.Schema.O, "", t.Name.O})
+		}
+		for _, c := range names.Columns {
+			r.columns = append(r.columns, qualName{c.Schema.O, c.Table.O, c.Name.O})
+		}
+	}
+	namesCache.Store(sql, r)
+	return r
 }
 
 type failure struct {
@@ -343,19 +403,19 @@ func check(env *rig.Env, c *Case, out rig.Outcome) outcome {
 	for _, s := range out.Sent {
 		cp := copyLoc{s.Slice, s.DB}
 		got[cp]++
-		_, names, err := env.ParseNames(s.SQL)
-		if err != nil {
+		names := namesOf(env, s.SQL)
+		if names.err != nil {
 			fail("malformed", "generated statement does not parse: "+s.SQL)
 			continue
 		}
-		for _, t := range names.Tables {
-			if t.Schema.O != "" && t.Schema.O != s.DB {
-				fail("table_schema_not_physical", fmt.Sprintf("table %s.%s in a statement sent to %v", t.Schema.O, t.Name.O, cp))
+		for _, t := range names.tables {
+			if t.Schema != "" && t.Schema != s.DB {
+				fail("table_schema_not_physical", fmt.Sprintf("table %s.%s in a statement sent to %v", t.Schema, t.Name, cp))
 			}
 		}
-		for _, col := range names.Columns {
-			if col.Schema.O != "" && col.Schema.O != s.DB {
-				fail("column_schema_not_physical", fmt.Sprintf("column %s.%s.%s in a statement sent to %v", col.Schema.O, col.Table.O, col.Name.O, cp))
+		for _, col := range names.columns {
+			if col.Schema != "" && col.Schema != s.DB {
+				fail("column_schema_not_physical", fmt.Sprintf("column %s.%s.%s in a statement sent to %v", col.Schema, col.Table, col.Name, cp))
 			}
 		}
 		if c.Stmt.Kind == "write" {
@@ -427,6 +487,7 @@ func describe(o rig.Outcome) string {
 }
 
 var (
+	tallyMu       sync.Mutex
 	rejectedForms = map[string]int{}
 	tallies       = map[string]int{}
 	tallyEx       = map[string]string{}
@@ -437,6 +498,8 @@ func tally(o failure) {
 	if os.Getenv("C04_DEBUG") == "" {
 		return
 	}
+	tallyMu.Lock()
+	defer tallyMu.Unlock()
 	k := fmt.Sprintf("effect=%s kind=%s form=%s qual=%s dbs=%s slice_order=%s same_db_copies=%s", o.feat["effect"], o.feat["kind"], o.feat["form"], o.feat["qual"], o.feat["dbs"], o.feat["slice_order"], o.feat["same_db_copies"])
 	tallies[k]++
 	if _, ok := tallyEx[k]; !ok {
@@ -466,30 +529,19 @@ func printTallies() {
 	}
 }
 
-// runCase plans the statement under EVERY answer of the planner's rand.Intn calls
-// (odometer over the choice points met) and checks each run.
+// runCase plans the statement under EVERY answer of the planner's rand.Intn calls and
+// checks each run.
 func runCase(r *ev.Run, env *rig.Env, c Case, verbose bool) {
-	prefix := []int{}
-	for {
-		var asked []int
-		vrand.Chooser = func(n int, what string) int {
-			i := len(asked)
-			asked = append(asked, n)
-			if i < len(prefix) {
-				return prefix[i]
-			}
-			return 0
-		}
-		out := env.Plan(rig.DB, c.Stmt.SQL)
-		vrand.Chooser = nil
+	for _, run := range planAll(env, c.Stmt.SQL) {
+		out := run.out
 		res := check(env, &c, out)
 		r.Add("evaluations", 1)
 		r.Add("runs_"+c.Stmt.Kind, 1)
-		if len(asked) > 0 {
+		if len(run.asked) > 0 {
 			r.Add("runs_with_random_choice", 1)
 		}
 		if verbose {
-			fmt.Printf("choices=%v of %v: %s\n", prefix, asked, describe(out))
+			fmt.Printf("choices=%v of %v: %s\n", run.choices, run.asked, describe(out))
 		}
 		switch {
 		case len(res.fails) > 0:
@@ -500,7 +552,9 @@ func runCase(r *ev.Run, env *rig.Env, c Case, verbose bool) {
 		case res.rejected:
 			r.Add("rejected", 1)
 			r.Distinct("rejected_forms", c.Stmt.Form+"/"+c.Stmt.Qual+": "+out.Err)
+			tallyMu.Lock()
 			rejectedForms[c.Stmt.Form+"/"+c.Stmt.Qual+": "+out.Err]++
+			tallyMu.Unlock()
 		default:
 			r.Add("accepted", 1)
 			r.Distinct("accepted_forms", c.Stmt.Form+"/"+c.Stmt.Qual)
@@ -513,21 +567,6 @@ func runCase(r *ev.Run, env *rig.Env, c Case, verbose bool) {
 				r.Distinct("read_targets", c.Layout.String()+"|"+res.target)
 			}
 		}
-		// next choice vector
-		full := make([]int, len(asked))
-		copy(full, prefix)
-		i := len(full) - 1
-		for i >= 0 {
-			full[i]++
-			if full[i] < asked[i] {
-				break
-			}
-			i--
-		}
-		if i < 0 {
-			return
-		}
-		prefix = full[:i+1]
 	}
 }
 
@@ -541,13 +580,20 @@ func main() {
 			ev.Fatalf("layout %v: %v", rc.Layout, err)
 		}
 		fmt.Println("replay:", rc.Layout, rc.Stmt.SQL, "copies:", rc.Layout.copies())
+		if len(rc.History) > 0 {
+			replayHistoryCase(r, rc)
+			r.Finish()
+		}
 		runCase(r, env, rc, true)
 		r.Finish()
 	}
+	debug.SetGCPercent(400)
 	ls := layouts(r.Pick(3, 4), 3, true)
 	stmts := statements()
-	samples := 0
-	for _, l := range ls {
+	var mu sync.Mutex
+	done := 0
+	n := enum.Parallel(len(ls), r.TimeUp, func(i int) {
+		l := ls[i]
 		env, err := build(l)
 		if err != nil {
 			ev.Fatalf("layout %v: %v", l, err)
@@ -555,23 +601,36 @@ func main() {
 		for _, s := range stmts {
 			c := Case{Layout: l, Stmt: s}
 			runCase(r, env, c, false)
-			if samples < 8 && l.NSlices == 2 && l.total() == 3 && (s.Form == "update" || s.Form == "join_on") && s.Qual == "table_db/col_db" {
-				vrand.Chooser = func(n int, what string) int { return n - 1 }
-				r.Sample(map[string]interface{}{"layout": l.String(), "copies": fmt.Sprint(l.copies()), "sql": s.SQL, "random_answer": "last", "sent": describe(env.Plan(rig.DB, s.SQL))})
-				vrand.Chooser = nil
-				samples++
+			if l.NSlices == 2 && l.sliceOrder() == "same" && l.Locations[0] == 1 && l.Locations[1] == 2 && (s.Form == "update" || s.Form == "join_on") && s.Qual == "table_db/col_db" {
+				out, _ := planWith(env, s.SQL, nil, true)
+				r.Sample(map[string]interface{}{"layout": l.String(), "copies": fmt.Sprint(l.copies()), "sql": s.SQL, "random_answer": "last", "sent": describe(out)})
 			}
 		}
-		if r.TimeUp() {
-			r.Capped("layouts up to " + l.String())
-			break
-		}
+		mu.Lock()
+		done++
+		mu.Unlock()
+	})
+	if n < len(ls) || r.TimeUp() {
+		r.Capped(fmt.Sprintf("%d of %d layouts completed", done, len(ls)))
 	}
+	hls := historyLayouts(r)
+	hdone := 0
+	hn := enum.Parallel(len(hls), r.TimeUp, func(i int) {
+		historyFamily(r, hls[i])
+		mu.Lock()
+		hdone++
+		mu.Unlock()
+	})
+	if hn < len(hls) || r.TimeUp() {
+		r.Capped(fmt.Sprintf("history family: %d of %d layouts completed", hdone, len(hls)))
+	}
+	r.Set("history_layouts", len(hls))
+	r.Set("history_bound", fmt.Sprintf("%d layouts (namespace slices 1-%d, 1-2 copies per slice, databases absent / list / range%s; the namespace also holds a range-sharded table t with two tables per slice): a subject S (one representative per statement form of the main universe, fully db-qualified where the form has such a spelling, plus full scan / NOT BETWEEN / IN / range / UPDATE / INSERT on t and a join of t with a global table) is planned under EVERY rand.Intn answer after every prefix of 1-2 distinct statements of a 17-statement pool (global INSERT VALUES / rows / SET, REPLACE, UPDATE, DELETE, SELECT, join, UNION, GROUP BY; on t: multi-row INSERT, NOT BETWEEN with far-apart bounds, IN, range, full scan, UPDATE, join with a global table) on the SAME router; the subjects follow one another on that router, rotated per prefix; reads inside a history take the last copy", len(hls), r.Pick(2, 3), map[bool]string{true: "", false: "; rule slice list also reversed / without the first slice"}[r.Quick()]))
 	printTallies()
 	r.Set("layouts", len(ls))
 	r.Set("statement_forms", len(stmts))
 	r.Set("bound", fmt.Sprintf("%d layouts (namespace slices 1-%d; rule slice list = all slices in order / reversed / without the first; 1-3 copies per listed slice; databases absent / explicit list / db[0-n] range / range+names) x %d statement forms (INSERT VALUES/SET/REPLACE/ON DUPLICATE, UPDATE, DELETE, SELECT, joins of two global tables, aliases, subquery, UNION; table and column names bare / table-qualified / db-qualified) x every answer of rand.Intn", len(ls), r.Pick(3, 4), len(stmts)))
-	r.Set("rule", "every (layout, statement form, random answer) is enumerated. distinct_nontrivial counts distinct (layout, form, target) where an accepted write was fanned out to at least two copies or an accepted read was steered to one copy by the enumerated rand.Intn answer")
+	r.Set("rule", "every (layout, statement form, random answer) is enumerated. distinct_nontrivial counts distinct (layout, form, target) where an accepted write was fanned out to at least two copies or an accepted read was steered to one copy by the enumerated rand.Intn answer, plus distinct (layout, prefix, subject) of the history family where the subject was accepted after the prefix and all its plans (one per random answer) were identical to its plans on a fresh router")
 	r.Assume("a rejected statement is not executed anywhere and is therefore not a violation (rejected forms are listed in NOTES.md)")
 	r.Assume("both global tables of a join have the same configuration (Gaea's documented requirement)")
 	r.Assume("the configured copies are the rule's own slices/locations/databases lists; with databases absent, several locations on one slice denote the same physical table db.g1")
